@@ -23,3 +23,16 @@ Theorem C05_operator_spellings_from_source :
   re_EPSILON_SYMBOLS = ((101%N :: 112%N :: 115%N :: 105%N :: 108%N :: 111%N :: 110%N :: nil) :: (36%N :: nil) :: nil).
 Proof. exact regex_operator_spellings. Qed.
 Print Assumptions C05_operator_spellings_from_source.
+
+(* the documented precedences and the refusal of ill-formed text, on the reference parser (fixed instances evaluated by the kernel):
+   star binds tighter than concatenation, which binds tighter than union; parentheses group; an empty group, a leading star and a
+   dangling union are refused *)
+From PFL Require Import Model.RegexParse.
+Theorem C05_precedence_instances :
+  parse_regex (TSym 1 :: TUnion :: TSym 2 :: TSym 3 :: TStar :: nil) = Some (RAlt (RSym 1) (RCat (RSym 2) (RStar (RSym 3)))) /\
+  parse_regex (TLp :: TSym 1 :: TUnion :: TSym 2 :: TRp :: TSym 3 :: nil) = Some (RCat (RAlt (RSym 1) (RSym 2)) (RSym 3)) /\
+  parse_regex (TSym 1 :: TConcat :: TSym 2 :: TUnion :: TEps :: nil) = Some (RAlt (RCat (RSym 1) (RSym 2)) REps) /\
+  parse_regex (TSym 1 :: TStar :: TStar :: nil) = Some (RStar (RStar (RSym 1))) /\
+  parse_regex (TLp :: TRp :: nil) = None /\ parse_regex (TStar :: nil) = None /\ parse_regex (TSym 1 :: TUnion :: nil) = None.
+Proof. repeat split; reflexivity. Qed.
+Print Assumptions C05_precedence_instances.
